@@ -5,6 +5,7 @@
   `*_sql` methods that call the helpers are covered by the search oracle only.
 -/
 import SqlglotModel.Proofs.Pretty
+import SqlglotModel.Generated.C07
 
 namespace SqlglotModel.Properties.C07
 open SqlglotModel.Pretty
@@ -61,12 +62,33 @@ theorem expressions_empty_item_witness :
     expressions ⟨false, 0, 0, 80, false⟩ [[], ['a']] false false false false [','] [] false false = ['a'] := by
   decide +kernel
 
+/-- the replace chain extracted from `Generator.generate` (the `sql = sql.replace(<pattern>, "\n")` calls under
+    `if self.pretty`) is the chain the model's `finish` runs: the sentinel, then its lower-cased form -/
+theorem generated_sentinel_chain_ok : SqlglotModel.Generated.C07.sentinelChain = sentinelChain := by decide +kernel
+
 /-- whatever reaches the end of `generate()` under pretty=True, the returned text contains no occurrence of the
-    sentinel (no suffix of the output starts with it) -/
+    sentinel NOR of its lower-cased form (no suffix of the output starts with either) — for every input text.
+    SCOPE: the modelled TAIL of generate() (strip + the replace chain). Other case-variants (mixed case) are not claimed
+    by this theorem; the search oracle checks "no case-variant of the sentinel in any output". -/
 theorem sentinel_absent_in_output (o : Opts) (hp : o.pretty = true) (sql : Str) (k : Nat) :
-    isPrefix SENTINEL ((finish o sql).drop k) = false := by
-  simp only [finish, hp, if_true, replace]
-  exact no_sentinel_after_replace _ _ (Nat.le_refl _) k
+    isPrefix SENTINEL ((finish o sql).drop k) = false ∧ isPrefix SENTINEL_LOWER ((finish o sql).drop k) = false := by
+  have h1 : NoOcc SENTINEL (replace SENTINEL ['\n'] (strip sql)) :=
+    noOcc_replace_self '_' SENTINEL.tail sentinel_no_nl _
+  have h2 : NoOcc SENTINEL (replace SENTINEL_LOWER ['\n'] (replace SENTINEL ['\n'] (strip sql))) :=
+    noOcc_replace_other '_' SENTINEL_LOWER.tail '_' SENTINEL.tail sentinel_no_nl _ h1
+  have h3 : NoOcc SENTINEL_LOWER (replace SENTINEL_LOWER ['\n'] (replace SENTINEL ['\n'] (strip sql))) :=
+    noOcc_replace_self '_' SENTINEL_LOWER.tail sentinel_lower_no_nl _
+  have hf : finish o sql = replace SENTINEL_LOWER ['\n'] (replace SENTINEL ['\n'] (strip sql)) := by
+    simp [finish, finishWith, sentinelChain, hp]
+  rw [hf]
+  exact ⟨h2 k, h3 k⟩
+
+/-- the single-replace tail (the source before the lower-cased sentinel was handled) removes the sentinel as spelled -/
+theorem sentinel_absent_in_output_old (o : Opts) (hp : o.pretty = true) (sql : Str) (k : Nat) :
+    isPrefix SENTINEL ((finishOld o sql).drop k) = false := by
+  have hf : finishOld o sql = replace SENTINEL ['\n'] (strip sql) := by simp [finishOld, finishWith, hp]
+  rw [hf]
+  exact noOcc_replace_self '_' SENTINEL.tail sentinel_no_nl _ k
 
 /-- Doc view of the modelled printer (C01 `gen`): render every soft break `sp` as ANY whitespace string (space, or
     newline + indentation of any width, chosen per position): the text without whitespace is the same — pretty and
@@ -102,6 +124,18 @@ theorem sentinel_in_literal_changes_value :
     so `sentinel_roundtrip` really needs a hypothesis stronger than "the sentinel does not occur in the text" -/
 theorem sentinel_overlap_changes_value :
     literalOut ⟨true, 2, 2, 80, false⟩ "__SQLGLOT__LB_\n_".toList = "'\n_SQLGLOT__LB___'".toList := by decide +kernel
+
+/-- SNAPSHOT WITNESS (finding fixed in the source since): `SELECT "a\nB"(1)` with pretty=True,
+    normalize_functions="lower": the rendered quoted name `"a__SQLGLOT__LB__B"` is lower-cased before the tail of
+    generate() runs; under the OLD single-replace tail the lower-cased sentinel survived, the current chain restores
+    the line break -/
+theorem sentinel_lowercased_survives :
+    finishOld ⟨true, 2, 2, 80, false⟩
+        (lowerAscii ('"' :: 'a' :: (replaceLineBreaks ⟨true, 2, 2, 80, false⟩ ['\n'] ++ ['B', '"', '(', '1', ')'])))
+      = "\"a__sqlglot__lb__b\"(1)".toList ∧
+    finish ⟨true, 2, 2, 80, false⟩
+        (lowerAscii ('"' :: 'a' :: (replaceLineBreaks ⟨true, 2, 2, 80, false⟩ ['\n'] ++ ['B', '"', '(', '1', ')'])))
+      = "\"a\nb\"(1)".toList := by decide +kernel
 
 /-- `sanitize_comment` on `*/` and `/*` (finite examples, labelled as such): no comment terminator survives -/
 theorem sanitize_comment_examples :
